@@ -496,8 +496,8 @@ Proof.
   destruct (draw_interrupted_ok c s cols rows content cursor toks0 s0 H3 E) as (s2 & E2 & B1 & B2 & B3 & B3' & B4).
   rewrite E2 in Hd. inversion Hd; subst toks s'. clear Hd.
   destruct (s_g1 s) eqn:G; cbn [run fold_left step].
-  - splits; auto. apply (mk_SyncP _ _ _ ru); cbn; auto; try congruence. rewrite B1. congruence.
-  - splits; auto. apply (mk_SyncP _ _ _ ru); cbn; auto; try congruence. rewrite B1. congruence.
+  - splits; auto. apply (mk_SyncP _ _ _ ru); cbn; auto; try congruence; try (rewrite B1; congruence).
+  - splits; auto. apply (mk_SyncP _ _ _ ru); cbn; auto; try congruence; try (rewrite B1; congruence).
 Qed.
 
 Lemma reachp_inv c s t last : cfg_ok c -> ReachP c s t last ->
